@@ -289,7 +289,12 @@ static int r_action(char *op, int guard, char *a1, char *a2, char *rest)
 	}
 	if (!strcmp(op, "rawspur")) {
 		struct ent *e = ent_by_id(mt_objnum(a1, 'r'));
+		int j;
 		if (e == NULL || e->owner != mt_me() || e->indisp || e->obj->event_rfd.handler_in == NULL) return 1;
+		/* also not while a dispatch of an EARLIER registration of the same object is still on this thread's stack (the object was
+		 * unregistered and registered again inside its own handler): the loop never re-enters a handler that has not returned */
+		for (j = 0; j < MAXENT; j++)
+			if (EN[j].used && EN[j].id == e->id && EN[j].indisp) return 1;
 		mt_log("SPUR r%d\n", e->id);
 		e->obj->event_rfd.handler_in(e->obj->event_rfd.cookie);
 		return 1;
